@@ -1,5 +1,6 @@
 import SwiftMT.Dispatch
 import SwiftMT.MParser
+import SwiftMT.Calendar
 import Driver.Hex
 /-
 Line-protocol driver over the executable model: one request per line on stdin, one answer per line on
@@ -84,6 +85,20 @@ def handle (args : List String) : String :=
   | ["marker", i] => match unhex i with
     | some input => s!"{isFieldMarker input}"
     | none => "bad-op"
+  | ["date", i] => match unhex i with
+    | some t => (match parseDateYYMMDD t with
+        | some x => s!"some {x.y} {x.m} {x.d} {hex (printYYMMDD x)}" | none => "none")
+    | none => "bad-op"
+  | ["json13d", i] => match unhex i with
+    | some t => (match json13dDecode t with | some x => s!"some {x.y} {x.m} {x.d}" | none => "none")
+    | none => "bad-op"
+  | ["time", i] => match unhex i with
+    | some t => (match parseTimeHHMM t with | some (h, m) => s!"some {h} {m}" | none => "none")
+    | none => "bad-op"
+  | ["offset", sg, i] => match unhex sg, unhex i with
+    | some [c], some t => (match parseOffset c t with | some (_, h, m) => s!"some {h} {m}" | none => "none")
+    | some _, some _ => "none"
+    | _, _ => "bad-op"
   | "mp" :: i :: ops => match unhex i with
     | some input => ";".intercalate (mpRun (PState.init input) ops)
     | none => "bad-op"
